@@ -1,5 +1,10 @@
 package p15
 
+import (
+	"os"
+	"strings"
+)
+
 // Signatures of confirmed genuine defects this package found. While a signature is listed as open
 // the generators steer away from exactly its input class (counted with vlib.Excluded) so that the
 // search continues behind it; findings/<sig>.json holds the minimal replay.
@@ -15,5 +20,20 @@ const (
 )
 
 var knownOpen = map[string]bool{
-	sigRestoreInt64: true,
+	sigRestoreInt64:   true,
+	sigPrunedLivelock: true,
+}
+
+// VERIF_P15_IGNORE_KNOWN=all | <sig>[,<sig>...] switches the listed exclusions off (used to confirm
+// that a finding still reproduces, or that a repair of /repo removes it).
+func init() {
+	v := os.Getenv("VERIF_P15_IGNORE_KNOWN")
+	if v == "" {
+		return
+	}
+	for k := range knownOpen {
+		if v == "all" || strings.Contains(","+v+",", ","+k+",") {
+			delete(knownOpen, k)
+		}
+	}
 }
